@@ -34,6 +34,9 @@ _W = {}
 def _init(mode_instrument: bool, prop: str):
     sys.path.insert(0, VERIF)
     sys.setrecursionlimit(10000)
+    import warnings
+
+    warnings.simplefilter("ignore")
     from pyvc import loader
 
     loader.install(mode_instrument)
